@@ -83,6 +83,7 @@ def ground_truth(args, truth_file):
     parse_func, emit_func, type_wanted = arg2parse_emit_type[args.truth]
     search = _get_name_from_namespace(args, args.truth).split(".")
 
+    truth_file = path.realpath(path.expanduser(truth_file))
     with open(truth_file, "rt") as f:
         true_ast = ast_parse(f.read(), filename=truth_file)
 
@@ -106,7 +107,10 @@ def ground_truth(args, truth_file):
 
         effect.update(
             map(
-                lambda filename: _conform_filename(
+                lambda filename: (truth_file, False)
+                if fun_name == args.truth
+                and path.realpath(path.expanduser(filename)) == truth_file
+                else _conform_filename(
                     filename=filename,
                     search=search,
                     emit_func=emit_func,
